@@ -17,11 +17,13 @@ impl Address {
     pub(crate) async fn resolve(&self) -> std::io::Result<std::net::SocketAddr> {
         #[cfg(bmwill_anemo_verif)]
         if crate::verif::active() {
-            // Literal socket addresses need no resolver thread; keep the simulated schedule free
-            // of real threads.
+            // Keep the simulated schedule free of real threads: resolve on the calling task.
+            // (The simulator only uses literal addresses and strings that fail to parse, neither
+            // of which reaches a resolver.)
             if let Address::SocketAddr(addr) = self {
                 return Ok(*addr);
             }
+            return self.resolve_blocking();
         }
         let address = self.to_owned();
 
